@@ -62,4 +62,18 @@ def loopM {σ ρ : Type} : Nat → (σ → Outcome (Ctl σ ρ)) → σ → Outco
 def gTry (okFlag : Bool) : Outcome Unit := if okFlag then ok () else fault (.err .other)
 def gUnwrap (okFlag : Bool) : Outcome Unit := if okFlag then ok () else fault (.panic .unwrap)
 
+/-- `r.unwrap()` on a `Result<T, E>`: an `Err` becomes a panic -/
+def unwrapRes {α} : Outcome α → Outcome α
+  | .fault (.err _) => fault (.panic .unwrap)
+  | x => x
+
+/-- `v.iter().max()` over an indexable collection of `n` items: the items are read in order (a fault at a read is the
+fault of the whole), `None` on the empty collection -/
+def maxByGet (n : Nat) (get : Nat → Outcome Word) : Outcome (Option Word) :=
+  (List.range n).foldlM (fun (acc : Option Word) i => do
+    let x ← get i
+    return (match acc with
+      | none => some x
+      | some a => some (if a ≤ x then x else a))) none
+
 end Sds.Generated
